@@ -54,7 +54,9 @@ GENERALIZED = {"npe", "lltsa", "lpp", "la"}          # randomized solver -> unsu
 EIGEN = {"klle", "npe", "kltsa", "lltsa", "hlle", "la", "lpp", "dm", "isomap", "lisomap", "mds", "lmds",
          "kpca", "pca"}
 NEIGH = ["brute", "vptree", "covertree"]
-KINDS = ["generic", "duplicated", "lattice", "collinear", "axis", "constant", "wide"]
+KINDS = ["generic", "duplicated", "lattice", "collinear", "axis", "constant", "wide",
+         "huge", "offset", "bridge", "tielattice", "dupgeneric"]
+HUGE_EXPONENTS = [150, 153, 154, 160, 200, 300, 307]
 EXC = ["wrong_parameter_error", "wrong_parameter_type_error", "missed_parameter_error",
        "multiple_parameter_error", "unsupported_method_error", "not_enough_memory_error",
        "cancelled_exception", "eigendecomposition_error", "no_data_error"]
@@ -95,6 +97,33 @@ def gen_data(kind, N, D, k, seed):
         X = [list(c) for _ in range(N)]
     elif kind == "wide":                  # 12 decades of dynamic range
         X = [[rng.gauss(0, 1) * 10.0 ** rng.uniform(-6, 6) for _ in range(D)] for _ in range(N)]
+    elif kind == "huge":                  # finite, but squares / products of entries overflow a double
+        e = HUGE_EXPONENTS[seed % len(HUGE_EXPONENTS)]
+        X = [[max(-1.7e308, min(1.7e308, rng.gauss(0, 1) * 10.0 ** e)) for _ in range(D)] for _ in range(N)]
+    elif kind == "offset":                # a common offset 1e6 .. 1e12 times the spread (cancellation)
+        off = [rng.choice([-1.0, 1.0]) * 7.0 * 10.0 ** rng.choice([6, 8, 10, 12]) for _ in range(D)]
+        X = [[off[c] + rng.gauss(0, 1) for c in range(D)] for _ in range(N)]
+    elif kind == "bridge":                # two tight clusters: weakly coupled neighbourhood graph / spectrum
+        eps = 10.0 ** rng.choice([-9, -12, -15])
+        ctr = [[0.0] * D, [1.0] + [0.0] * (D - 1) if D else []]
+        X = [[ctr[i % 2][c] + eps * rng.gauss(0, 1) for c in range(D)] for i in range(N)]
+    elif kind == "tielattice":            # integer lattice (exact distance ties) scaled by a non-power-of-two, permuted
+        side = max(2, int(round(N ** (1.0 / max(D, 1)))))
+        sc = rng.choice([0.1, 1.0 / 3.0, 3.0, 1e-3, 7.0])
+        X = []
+        for i in range(N):
+            j, row = i, []
+            for c in range(D):
+                row.append(float(j % side) * sc)
+                j //= side
+            X.append(row)
+        rng.shuffle(X)
+    elif kind == "dupgeneric":            # generic data with a few exact duplicate pairs
+        X = [[rng.gauss(0, 1) for _ in range(D)] for _ in range(N)]
+        for _ in range(max(1, N // 6)):
+            if N >= 2:
+                a, b = rng.sample(range(N), 2)
+                X[a] = list(X[b])
     else:
         raise ValueError(kind)
     return X
@@ -210,6 +239,21 @@ def data_of(c):
 
 # ----------------------------------------------------------------------------- running the implementation
 RESULT_RE = re.compile(r"^R (-?\d+) (\S+)(?: (.*))?$")
+QRESULT_RE = re.compile(r"^Q (-?\d+) (\d+) (\S+)(?: (.*))?$")
+
+
+def parse_payload(tag, rest, line):
+    if tag == "OK":
+        f = rest.split()
+        try:
+            return {"cls": "ok", "rows": int(f[0]), "cols": int(f[1]), "nonfinite": int(f[2]), "rowtie": int(f[3])}
+        except (ValueError, IndexError):
+            return {"cls": "garbage", "detail": line[:200]}
+    if tag == "EXC":
+        return {"cls": "exc", "exc": rest.strip()}
+    if tag == "UNDOC":
+        return {"cls": "undoc", "detail": rest[:300]}
+    return {"cls": "garbage", "detail": line[:200]}
 
 
 def run_chunk(ctx, exe, cases, wd, env):
@@ -217,6 +261,7 @@ def run_chunk(ctx, exe, cases, wd, env):
     result: {"cls": "ok"|"exc"|"undoc"|"crash"|"hang"|"garbage", ...}"""
     out = {}
     nbinfo = {}
+    others = {}
     pending = list(cases)
     guard = 0
     while pending and guard < len(cases) + 5:
@@ -251,23 +296,16 @@ def run_chunk(ctx, exe, cases, wd, env):
                 out[tid] = {"cls": "hang", "detail": "in-process watchdog (%d s) fired" % wd}
                 done.add(tid)
                 continue
+            qm = QRESULT_RE.match(line)
+            if qm:                       # par mode: what another thread of the application's region saw
+                others.setdefault(int(qm.group(1)), []).append(
+                    parse_payload(qm.group(3), qm.group(4) or "", line))
+                continue
             mm = RESULT_RE.match(line)
             if not mm:
                 continue
-            rid, tag, rest = int(mm.group(1)), mm.group(2), mm.group(3) or ""
-            if tag == "OK":
-                f = rest.split()
-                try:
-                    out[rid] = {"cls": "ok", "rows": int(f[0]), "cols": int(f[1]), "nonfinite": int(f[2]),
-                                "rowtie": int(f[3])}
-                except (ValueError, IndexError):
-                    out[rid] = {"cls": "garbage", "detail": line[:200]}
-            elif tag == "EXC":
-                out[rid] = {"cls": "exc", "exc": rest.strip()}
-            elif tag == "UNDOC":
-                out[rid] = {"cls": "undoc", "detail": rest[:300]}
-            else:
-                out[rid] = {"cls": "garbage", "detail": line[:200]}
+            rid = int(mm.group(1))
+            out[rid] = parse_payload(mm.group(2), mm.group(3) or "", line)
             done.add(rid)
         ids = [c["id"] for c in pending]
         if r.rc == 0 and not r.timed_out and all(i in done for i in ids):
@@ -297,13 +335,19 @@ def run_chunk(ctx, exe, cases, wd, env):
         out.setdefault(c["id"], {"cls": "garbage", "detail": "no result line"})
         if c["id"] in nbinfo:
             out[c["id"]]["nb"] = nbinfo[c["id"]]
+        if c["id"] in others:
+            out[c["id"]]["others"] = others[c["id"]]
     return out
 
 
-def run_impl(ctx, exe, cases, wd=15, workers=8, threads="2"):
-    env = {"OMP_NUM_THREADS": threads,
-           "ASAN_OPTIONS": "detect_leaks=0:abort_on_error=0:allocator_may_return_null=1:handle_abort=1",
-           "UBSAN_OPTIONS": "print_stacktrace=1"}
+ASAN_OPTIONS = ("detect_leaks=0:abort_on_error=0:allocator_may_return_null=1:handle_abort=1:"
+                # fresh heap memory reads as NaN: a result computed from uninitialised doubles is not finite
+                "malloc_fill_byte=255:max_malloc_fill_size=67108864")
+
+
+def run_impl(ctx, exe, cases, wd=15, workers=8, threads="2", env_extra=None):
+    env = {"OMP_NUM_THREADS": threads, "ASAN_OPTIONS": ASAN_OPTIONS, "UBSAN_OPTIONS": "print_stacktrace=1"}
+    env.update(env_extra or {})
     chunks = [cases[i::workers] for i in range(workers)]
     res = {}
     with concurrent.futures.ThreadPoolExecutor(max_workers=workers) as ex:
@@ -413,7 +457,7 @@ NUMERIC_EXC = {"eigendecomposition_error", "not_enough_memory_error"}
 # the finiteness clause (a TEST, labelled as such in the evidence): every method whose result is a function of
 # the data alone (dense solver, brute-force neighbours) + RandomProjection / PassThru
 FINITE_METHODS = {"pca", "ra", "passthru", "mds", "kpca", "klle", "kltsa", "hlle", "npe", "lltsa", "la", "lpp",
-                  "dm", "isomap"}
+                  "dm", "isomap", "lisomap", "lmds", "spe", "fa", "tsne", "ms"}
 
 
 def finiteness_interior(c):
@@ -441,6 +485,21 @@ def finiteness_interior(c):
         return False
     if m in ("mds", "kpca", "isomap") and d > min(D, N - 2):
         return False                      # number of positive eigenvalues of the centred Gram matrix
+    if m in ("lmds", "lisomap"):
+        L = int(N * p.get("lr", 0.5))
+        if not (0.4 <= p.get("lr", 0.5) <= 1.0) or d > min(D, L - 2):
+            return False                  # positive eigenvalues of the centred landmark matrix
+    if m in ("spe", "fa", "ms") and d > D:
+        return False
+    if m == "spe" and not p.get("speg", 1) and (c["nm"] != "brute" or not (3 < k < N - 1)):
+        return False
+    if m == "ms" and not (0.5 <= p.get("sq", 0.99) < 1.0):
+        return False
+    if m == "tsne":
+        if not (0.3 <= p.get("perp", 30.0) < (N - 1) / 3.0) or (p.get("theta", 0.5) > 0 and d != 2) or d > 3:
+            return False
+    if p.get("nshift", 1.0) == 0.0 or p.get("kshift", 1.0) == 0.0:
+        return False                      # a regulariser at exactly 0 is the boundary of its range
     if m in ("la", "lpp", "dm") and not (0.25 <= p.get("width", 1.0) <= 100.0):
         return False
     if m == "dm" and p.get("ts", 3) < 1:
@@ -459,12 +518,17 @@ def pub(c):
            ({"X": c["X"]} if "X" in c else {})
 
 
-def judge(ctx, c, real, model, build, stats):
+def judge(ctx, c, real, model, build, stats, thread=0):
     """spec on the implementation's own outcome + correspondence with the model. real = result dict of
     run_chunk, model = dict of run_model."""
     cls = real["cls"]
     N, d, D = c["N"], c["d"], c["D"]
     where = "%s build" % build
+    if c["p"].get("par"):
+        where += ", called inside an application's omp parallel region of %d threads, thread %d" % (c["p"]["par"], thread)
+        if thread == 0:
+            for t, o in enumerate(real.get("others", []), 1):
+                judge(ctx, c, o, model, build, stats, thread=t)
     if cls in ("crash", "hang", "undoc", "garbage"):
         what = {"crash": "terminates the process (%s)" % str(real.get("detail", ""))[:700],
                 "hang": "does not return within the watchdog (%s)" % real.get("detail", ""),
@@ -524,6 +588,41 @@ def judge(ctx, c, real, model, build, stats):
     ctx.mismatch(pub(c), "implementation throws %s, model says %s [%s]" % (e, model, where))
 
 
+def judge_twins(ctx, cases, results, stats):
+    """par_cases twins (id, id + 1): the outcome of embed must not depend on where the application calls it from.
+    Compared: the outcome class (matrix / which exception) and, on the finiteness stream, finiteness."""
+    by_id = {c["id"]: c for c in cases}
+    for c in cases:
+        if not c["p"].get("par") or c["id"] - 1 not in by_id:
+            continue
+        for b in results:
+            ser, par = results[b].get(c["id"] - 1), results[b].get(c["id"])
+            if not ser or not par or ser["cls"] not in ("ok", "exc"):
+                continue
+            seen = [par] + list(par.get("others", []))
+            stats["par_compared"] = stats.get("par_compared", 0) + len(seen)
+            for t, o in enumerate(seen):
+                if o["cls"] not in ("ok", "exc"):
+                    continue                      # already a violation by itself (judge)
+                same = o["cls"] == ser["cls"] and (o.get("exc") == ser.get("exc")) and \
+                    (o["cls"] != "ok" or ((o["rows"], o["cols"]) == (ser["rows"], ser["cols"]) and
+                                          bool(o["nonfinite"]) == bool(ser["nonfinite"])))
+                if not same:
+                    ctx.violation(pub(c), "the outcome of tapkee::embed depends on the calling context: the plain serial "
+                                          "call gives %s, the same call made from inside an application's omp parallel "
+                                          "region of %d threads gives %s in thread %d [%s build]" % (
+                                              brief(ser), c["p"]["par"], brief(o), t, b))
+                    break
+
+
+def brief(r):
+    if r["cls"] == "ok":
+        return "a %dx%d matrix with %d non-finite entries" % (r["rows"], r["cols"], r["nonfinite"])
+    if r["cls"] == "exc":
+        return r["exc"]
+    return r["cls"]
+
+
 def shrink_case(ctx, exe, c, cls, budget=8):
     """smaller request that still makes this build fail in the same class (crash / hang / undoc)"""
     best = dict(c)
@@ -531,8 +630,7 @@ def shrink_case(ctx, exe, c, cls, budget=8):
 
     def fails(cand):
         r = run_chunk(ctx, exe, [cand], 10, {"OMP_NUM_THREADS": "2", "UBSAN_OPTIONS": "print_stacktrace=1",
-                                              "ASAN_OPTIONS": "detect_leaks=0:abort_on_error=0:"
-                                                              "allocator_may_return_null=1:handle_abort=1"})
+                                              "ASAN_OPTIONS": ASAN_OPTIONS})
         return r[cand["id"]]["cls"] == cls
 
     cands = []
@@ -556,11 +654,11 @@ def shrink_case(ctx, exe, c, cls, budget=8):
     return best
 
 
-def evaluate(ctx, exes, mexe, cases, stats, wd=10, workers=5):
+def evaluate(ctx, exes, mexe, cases, stats, wd=10, workers=5, env_extra=None):
     """exes = {"san": path, "dbg": path}"""
     results = {}
     with concurrent.futures.ThreadPoolExecutor(max_workers=2) as ex:
-        futs = {b: ex.submit(run_impl, ctx, exe, cases, wd, workers) for b, exe in exes.items()}
+        futs = {b: ex.submit(run_impl, ctx, exe, cases, wd, workers, "2", env_extra) for b, exe in exes.items()}
         for b, f in futs.items():
             results[b] = f.result()
     lens = {}
@@ -575,6 +673,7 @@ def evaluate(ctx, exes, mexe, cases, stats, wd=10, workers=5):
     model = run_model(ctx, mexe, cases, HEAD_VARIANT, lens)
     for b, exe in exes.items():
         stats["exe_" + b] = exe
+    judge_twins(ctx, cases, results, stats)
     for c in cases:
         for b in exes:
             judge(ctx, c, results[b][c["id"]], model[c["id"]], b, stats)
@@ -658,6 +757,117 @@ def finite_cases(rng, start_id, per_method):
             c["p"]["cc"] = 1
             out.append(c)
             cid += 1
+    return out
+
+
+def interior_case(rng, cid, m, N=12, D=3, **over):
+    """a request well inside every bound, on samples in general position"""
+    if m in ("lmds", "lisomap"):
+        over.setdefault("lr", 0.5)
+    if m == "tsne":
+        over.setdefault("perp", 2.0)
+        over.setdefault("theta", 0.5)
+    if m == "ms":
+        over.setdefault("maxit", 3)
+        over.setdefault("sq", 0.9)
+    if m == "spe":
+        over.setdefault("maxit", 20)
+        over.setdefault("speg", 1)
+        over.setdefault("spen", 5)
+        over.setdefault("spetol", 1e-9)
+    if m == "fa":
+        over.setdefault("maxit", 5)
+        over.setdefault("fae", 1e-9)
+    if m in ("la", "lpp", "dm"):
+        over.setdefault("width", 4.0)
+    if m == "dm":
+        over.setdefault("ts", 2)
+    nm = over.pop("nm", "brute")
+    em = over.pop("em", "dense")
+    kind = over.pop("kind", "generic")
+    seed = over.pop("seed", None)
+    c = make_case(rng, cid, m=m, N=N, D=D, d=2, k=7 if m == "hlle" else 5, kind=kind, nm=nm, em=em,
+                  boundary=False, seed=seed, **over)
+    c["p"].setdefault("cc", 1)
+    return c
+
+
+def huge_cases(rng, start_id, quick):
+    """every method on FINITE samples of magnitude 1e150 .. 1e307: squares, Gram entries and distances overflow.
+    The outcome must still be a matrix or a documented exception -- never std::terminate / abort / a hang (an
+    exception raised inside an OpenMP region, a recursion that cannot make progress, a search on NaN keys)"""
+    out = []
+    cid = start_id
+    exps = [154, 160, 300] if quick else HUGE_EXPONENTS
+    for mi, m in enumerate(METHODS):
+        uses = m in USES_NB or m == "spe"
+        for ei, e in enumerate(exps):
+            nms = [NEIGH[(mi + ei) % 3]] if uses else ["brute"]
+            if uses and (e == 160 or not quick):
+                nms = list(NEIGH)
+            for ni, nm in enumerate(nms):
+                over = {"speg": 0} if m == "spe" and nm != "brute" else {}
+                em = "randomized" if (m in EIGEN and (mi + ei + ni) % 4 == 3) else "dense"
+                c = interior_case(rng, cid, m, kind="huge", nm=nm, em=em,
+                                  seed=HUGE_EXPONENTS.index(e) + len(HUGE_EXPONENTS) * (1 + mi + ni), **over)
+                c["p"]["cc"] = (mi + ei + ni) % 2
+                out.append(c)
+                cid += 1
+    return out
+
+
+SPECIAL_UNSET = [("klle", "d"), ("klle", "k"), ("isomap", "d,k"), ("isomap", "nm"), ("pca", "em"), ("pca", "d"),
+                 ("mds", "d,em"), ("la", "d,k,nm,em"), ("kltsa", "k,nm"), ("lmds", "em"), ("spe", "d,k,nm")]
+
+
+def special_cases(rng, start_id, quick):
+    """keyword values that select another code path: 0 meaning "automatic" / "no iterations", 1 (one annealing
+    step), shifts at exactly 0, and the library default left UNSET versus set explicitly to the same value"""
+    out = []
+    cid = start_id
+
+    def add(m, **over):
+        nonlocal cid
+        out.append(interior_case(rng, cid, m, **over))
+        cid += 1
+
+    for N in ([12] if quick else [12, 30]):
+        for maxit in (0, 1, 2):
+            for speg in (1, 0):
+                add("spe", N=N, maxit=maxit, speg=speg)
+            add("ms", N=N, maxit=maxit)
+            add("fa", N=N, maxit=maxit)
+        for m in ("klle",):
+            add(m, N=N, kshift=0.0)
+        for m in ("kltsa", "hlle"):
+            add(m, N=N, nshift=0.0)
+        add("dm", N=N, ts=1)
+        add("tsne", N=N, theta=0.0, perp=(N - 1) / 3.0)
+        add("spe", N=N, spen=1)
+        add("spe", N=N, spen=N // 2, speg=0)
+    # default left unset / set explicitly (d = 2, k = 5, cover tree, dense are the library defaults)
+    for m, unset in SPECIAL_UNSET:
+        over = {"speg": 0} if m == "spe" else {}
+        add(m, nm="covertree", em="dense", unset=unset, **over)
+        add(m, nm="covertree", em="dense", **over)
+    return out
+
+
+PAR_ENVS = [("region of 2 threads", 2, {}),
+            ("region of 3 threads, OMP_THREAD_LIMIT=3 < OMP_NUM_THREADS=4, nested parallelism on", 3,
+             {"OMP_NUM_THREADS": "4", "OMP_THREAD_LIMIT": "3", "OMP_MAX_ACTIVE_LEVELS": "2", "OMP_NESTED": "true"})]
+
+
+def par_cases(rng, start_id, T, methods=None):
+    """the same interior request (a) as a plain serial call and (b) from INSIDE an application's own
+    `omp parallel num_threads(T)` region, once per thread: (id, id + 1) are twins"""
+    out = []
+    cid = start_id
+    for m in (methods or METHODS):
+        a = interior_case(rng, cid, m, seed=11)
+        b = dict(a, id=cid + 1, p=dict(a["p"], par=T))
+        out += [a, b]
+        cid += 2
     return out
 
 
@@ -919,11 +1129,28 @@ def run(ctx):
     cases += boundary_cases(rng, 1000, 16 if quick else 44)
     cases += spe_cases(rng, 50000, quick)
     cases += finite_cases(rng, 60000, 3 if quick else 12)
+    nhuge = len(cases)
+    cases += huge_cases(rng, 70000, quick)
+    nhuge = len(cases) - nhuge
+    nspecial = len(cases)
+    cases += special_cases(rng, 80000, quick)
+    nspecial = len(cases) - nspecial
     nboundary = len(cases) - ncorpus
     cases += random_cases(rng, 100000, 600 if quick else 6000, 50)
     nrandom = len(cases) - ncorpus - nboundary
     nlarge = 0
     model, results = evaluate(ctx, exes, mexe, cases, stats)
+    npar = n_single_build = 0
+    for i, (label, T, env_extra) in enumerate(PAR_ENVS):
+        pc = par_cases(rng, 90000 + 1000 * i, T)
+        npar += len(pc)
+        # not in the TAPKEE_DEBUG build: its RESTRICT_ALLOC instrumentation is one process-wide Eigen flag
+        model2, results2 = evaluate(ctx, {"san": exes["san"]}, mexe, pc, stats, env_extra=env_extra)
+        model.update(model2)
+        for b in results2:
+            results[b].update(results2[b])
+        cases += pc
+        n_single_build += len(pc)
     if not quick:
         large = large_cases(rng, 300000, 400, [64, 100, 150, 200, 300])
         nlarge = len(large)
@@ -933,14 +1160,16 @@ def run(ctx):
             results[b].update(results2[b])
         cases += large
     ctx.note("phases (s): Coq + extraction, with both C++ builds in parallel %.0f; sweep %.0f" % (t_build, ctx.elapsed() - t_build))
-    n = 2 * len(cases)
+    n = 2 * len(cases) - n_single_build
     if (ctx.is_unshown() or unreadable) and not ctx.has_violation():
         n += 2 * search_phase(ctx, exes, mexe, rng, stats, 12 if quick else 40)
     for b in exes:
         stats.pop("exe_" + b, None)
     stats_fin, stats_nonfin = stats.get("finite_checked", {}), stats.get("nonfinite_by_method", {})
     distinct = {key_of(c) for c in cases if model[c["id"]]["cls"] in ("shape", "crash")}
-    hist = {"generators": {"corpus": ncorpus, "boundary": nboundary, "random": nrandom, "large": nlarge},
+    hist = {"generators": {"corpus": ncorpus, "boundary": nboundary - nhuge - nspecial, "huge_magnitude": nhuge,
+                           "special_values": nspecial, "random": nrandom, "large": nlarge,
+                           "in_parallel_region_twins": npar},
             "translators": tstatus,
             "method": {}, "N": {}, "kind": {}, "neighbors_method": {}, "eigen_method": {}, "stats": stats}
     for c in cases:
@@ -979,10 +1208,19 @@ def replay(ctx, case):
     c.setdefault("em", "dense")
     c["id"] = 1
     stats = new_stats()
-    model, results = evaluate(ctx, exes, mexe, [c], stats, workers=1)
-    print("model (head variant): %s" % model[1])
+    todo = [c]
+    if c["p"].get("par"):
+        # a call from inside a parallel region: its serial twin first (ids 1, 2); the TAPKEE_DEBUG build is left out
+        # (its RESTRICT_ALLOC instrumentation is one process-wide Eigen flag)
+        c["id"] = 2
+        todo = [dict(c, id=1, p={k: v for k, v in c["p"].items() if k != "par"}), c]
+        exes = {"san": exes["san"]}
+    model, results = evaluate(ctx, exes, mexe, todo, stats, workers=1)
+    print("model (head variant): %s" % model[c["id"]])
     for b in exes:
-        print("%s build: %s" % (b, {k: (str(v)[:600]) for k, v in results[b][1].items()}))
+        for t in todo:
+            print("%s build%s: %s" % (b, " (inside a parallel region)" if t["p"].get("par") else "",
+                                      {k: (str(v)[:600]) for k, v in results[b][t["id"]].items()}))
     if ctx.has_violation() or ctx.is_unshown():
         print("replay: property C01 FAILS on this request")
         return 1
